@@ -3,7 +3,8 @@
 install(root, crash_at=None, phase=None, log_path=None) patches builtins.open / io.open and
 os.mkdir / unlink / remove / rename / replace / rmdir so that every *mutation* of a path under `root`
 (log files excluded) is a numbered event:
-    mkdir, open-for-write, write (flushed at once, so the bytes are on disk before a kill), unlink, rename/replace.
+    mkdir, open-for-write, write (flushed at once, so the bytes are on disk before a kill - or, in buffered mode, left
+    in the interpreter's buffer, so a kill loses them), unlink, rename/replace.
 With crash_at=k the process is cut with os._exit(137) immediately BEFORE event k (phase 'before') or immediately
 AFTER it (phase 'after').  With log_path the event list is written there at exit (count run).
 """
@@ -72,7 +73,8 @@ class _W:
 
         def do():
             n = f.write(data)
-            f.flush()
+            if not state.get("buffered"):
+                f.flush()
             return n
         return _event("write", self._path, do)
 
@@ -130,8 +132,12 @@ def _wrap2(name, kind):
     setattr(os, name, w)
 
 
-def install(root, crash_at=None, phase=None, log_path=None):
-    state.update(root=os.path.abspath(root) + os.sep, crash_at=crash_at, phase=phase, log=log_path, n=0, events=[])
+def install(root, crash_at=None, phase=None, log_path=None, buffered=False):
+    """buffered=False: every write() reaches the file at once (the worst case for torn files).
+    buffered=True: writes stay in the interpreter's own buffer until the code flushes or closes the file, and a kill
+    loses them (the worst case for code that renames or publishes a file before its content is out)."""
+    state.update(root=os.path.abspath(root) + os.sep, crash_at=crash_at, phase=phase, log=log_path, n=0, events=[],
+                 buffered=buffered)
     builtins.open = _open
     io.open = _open
     for n in ("mkdir", "unlink", "remove", "rmdir"):
